@@ -148,10 +148,6 @@ def judge(ctx):
     return out
 
 
-def projection(ctx):
-    return E.model_ok(ctx)
-
-
 def nontrivial(ctx):
     raw = ctx.case.get("config") or {}
     return ctx.modified or (isinstance(raw, dict) and len(raw) < 6)
